@@ -19,7 +19,8 @@
 // An emitter of kind 1 is an object of class Em2 : PadE2, Em handed over as Em2* (V = Em2, X = Em).  Kinds are given
 // by the case configuration: `k<digits>` one digit per listener, `j<digits>` one digit per emitter (last repeats).
 // Every slot checks the identity fields of the sub-object it runs on (`?bad-receiver` otherwise) and that the pad
-// in front of it is untouched.
+// in front of it is untouched.  Slot 3 of every arity is a virtual member function (its member pointer holds a vtable
+// offset instead of an address; Li and PadL2 are therefore dynamic classes, PadL2 being the primary base of Li2).
 //
 // Slots with memory: `def l s @k <action>` is performed only by the k-th invocation of slot s of listener l in the
 // case, `def l s @k+ <action>` by the k-th and every later one (the model's scripts see the invocation log).
@@ -98,12 +99,13 @@ class Li : public PadL, public Callback::Listener
 public:
   int id; unsigned magic;
 #define DECL_SLOT1(A, S) void t##A##_##S(PARAMS##A) { check_args(OK##A(cur_serial())); run_slot(this, S); }
-#define DECL_SLOT(A) DECL_SLOT1(A, 0) DECL_SLOT1(A, 1) DECL_SLOT1(A, 2) DECL_SLOT1(A, 3)
+// slot 3 of every arity is a VIRTUAL member function: its member pointer holds a vtable offset, not an address
+#define DECL_SLOT(A) DECL_SLOT1(A, 0) DECL_SLOT1(A, 1) DECL_SLOT1(A, 2) virtual DECL_SLOT1(A, 3)
   FOR_ARITIES(DECL_SLOT)
 };
 
 // objects whose Li / Em part is a NON-FIRST base with data in front of it and behind it
-struct PadL2 { long q[7]; };
+struct PadL2 { long q[7]; virtual void keeps_li_off_offset_0() {} };   // dynamic, so that it (not Li) is the primary base of Li2
 struct PadE2 { long r[2]; };
 class Li2 : public PadL2, public Li { public: long tail2[2]; };
 class Em2 : public PadE2, public Em { public: long tail2[3]; };
@@ -366,7 +368,7 @@ static void begin(long c, vh::Tok& t)
     em[e]->id = e; em[e]->magic = 0xE177E177u; emp[e] = em[e];
   }
   for(int l = 0; l < nl; ++l) {
-    if(lkind[l]) { li2[l] = new Li2; li[l] = li2[l]; for(int k = 0; k < 7; ++k) li2[l]->q[k] = PADQ + l * 16 + k; } else { li2[l] = 0; li[l] = new Li; }
+    if(lkind[l]) { li2[l] = new Li2; li[l] = li2[l]; if((char*)li[l] == (char*)li2[l]) { printf("?layout: Li sits at offset 0 of Li2\n"); abort(); } for(int k = 0; k < 7; ++k) li2[l]->q[k] = PADQ + l * 16 + k; } else { li2[l] = 0; li[l] = new Li; }
     li[l]->id = l; li[l]->magic = 0x51075107u; lip[l] = li[l];
   }
 }
